@@ -50,10 +50,16 @@ type Prog struct {
 	Fns    []*ssa.Function
 	byName map[string]*ssa.Function
 	// closures[f] = anonymous functions created (transitively) inside f, in source order
-	callers  map[*ssa.Function][]callSite // static call sites per module callee
-	nCalls   int
-	canonEnv env // parameter substitution in effect while canonE runs
-	factMemo map[*ssa.Function][]branchFact
+	callers   map[*ssa.Function][]callSite // static call sites per module callee
+	nCalls    int
+	canonEnv  env // parameter substitution in effect while canonE runs
+	factMemo  map[*ssa.Function][]branchFact
+	RoleNotes []string
+	roleOf    map[*ssa.Function]string
+	// boundRecv: receiver parameter of a module method that is only ever used as one bound method value
+	// (withLock(..., claim.commit)) -> the value it is bound to at that site
+	boundRecv   map[*ssa.Parameter]ssa.Value
+	boundMethod map[*ssa.Function]*ssa.Function // synthetic $bound wrapper -> method
 }
 
 type callSite struct {
@@ -66,6 +72,17 @@ type loadError struct{ msg string }
 func (e *loadError) Error() string { return e.msg }
 
 func loadProgram(repo string, cfg BuildConfig) (*Prog, error) {
+	p, err := loadProgramRaw(repo, cfg)
+	if err != nil {
+		return nil, err
+	}
+	if rolesFile != "" {
+		p.RoleNotes = resolveRenamedRoles(p, rolesFile)
+	}
+	return p, nil
+}
+
+func loadProgramRaw(repo string, cfg BuildConfig) (*Prog, error) {
 	if gw := os.Getenv("GOWORK"); gw != "" && gw != "off" {
 		return nil, &loadError{"GOWORK is set (" + gw + "); refusing to analyse a workspace-altered build"}
 	}
@@ -103,7 +120,7 @@ func loadProgram(repo string, cfg BuildConfig) (*Prog, error) {
 	prog, _ := ssautil.AllPackages(pkgs, ssa.InstantiateGenerics)
 	prog.Build()
 	p := &Prog{Repo: repo, Config: cfg, Fset: pkgs[0].Fset, Pkgs: pkgs, SSA: prog,
-		byName: map[string]*ssa.Function{}, callers: map[*ssa.Function][]callSite{}}
+		byName: map[string]*ssa.Function{}, roleOf: map[*ssa.Function]string{}, callers: map[*ssa.Function][]callSite{}}
 	for _, sp := range prog.AllPackages() {
 		switch sp.Pkg.Path() {
 		case ergoPath:
@@ -154,6 +171,42 @@ func loadProgram(repo string, cfg BuildConfig) (*Prog, error) {
 			}
 		}
 	}
+	// bound method values
+	p.boundRecv, p.boundMethod = map[*ssa.Parameter]ssa.Value{}, map[*ssa.Function]*ssa.Function{}
+	sitesOf := map[*ssa.Function][]*ssa.MakeClosure{}
+	for _, f := range p.Fns {
+		for _, b := range f.Blocks {
+			for _, in := range b.Instrs {
+				mc, ok := in.(*ssa.MakeClosure)
+				if !ok {
+					continue
+				}
+				w, _ := mc.Fn.(*ssa.Function)
+				if w == nil || w.Synthetic == "" || !strings.HasSuffix(w.Name(), "$bound") || len(mc.Bindings) != 1 {
+					continue
+				}
+				var m *ssa.Function
+				for _, wb := range w.Blocks {
+					for _, wi := range wb.Instrs {
+						if c, ok := wi.(ssa.CallInstruction); ok {
+							if cal := c.Common().StaticCallee(); cal != nil && p.InModule(cal) {
+								m = cal
+							}
+						}
+					}
+				}
+				if m != nil && len(m.Params) > 0 {
+					p.boundMethod[w] = m
+					sitesOf[m] = append(sitesOf[m], mc)
+				}
+			}
+		}
+	}
+	for m, sites := range sitesOf {
+		if len(sites) == 1 && len(p.callers[m]) == 0 {
+			p.boundRecv[m.Params[0]] = sites[0].Bindings[0]
+		}
+	}
 	return p, nil
 }
 
@@ -182,6 +235,10 @@ func (p *Prog) Name(f *ssa.Function) string {
 		return "<nil>"
 	}
 	s := f.String()
+	if role, ok := p.roleOf[Outermost(f)]; ok {
+		// renamed function resolved by fingerprint: keys keep the recorded role name
+		s = strings.Replace(s, ergoPath+"."+Outermost(f).Name(), ergoPath+"."+role, 1)
+	}
 	s = strings.ReplaceAll(s, ergoPath+".", "ergo.")
 	s = strings.ReplaceAll(s, mainPath+".", "main.")
 	s = strings.ReplaceAll(s, "command-line-arguments.", "main.")
